@@ -380,35 +380,6 @@ def _executor_table(p, led, tier, ex, exe, wd, ms, pt, tv, DT, IL, dts, ils, ilv
                 led.ok(rid, f"DiagramExecutor.execute ▸ {x}", where(exe, exe.node), "row family of the table above", nontrivial=False)
 
 
-def _inside_any(node, loops):
-    st = node.ast
-    q = parent(st)
-    while q is not None:
-        if any(q is w for w in loops):
-            return True
-        q = parent(q)
-    return False
-
-
-def _enclosing_for(n):
-    q = parent(n)
-    while q is not None and not isinstance(q, (ast.For, ast.FunctionDef)):
-        q = parent(q)
-    return q if isinstance(q, ast.For) else None
-
-
-def _loops_back(cfg, t, sn, head):
-    """the store is reachable from t's failing edge only by going round the enclosing loop"""
-    r = cfg.reach(start_edges=[(t, m, l) for m, l in t.succ if l == "T"], cut=lambda a, b, l: b is head)
-    return sn not in r
-
-
-def _is_all_inputs(exe, name):
-    for n in walk_no_nested(exe.node):
-        if isinstance(n, ast.Assign) and isinstance(n.targets[0], ast.Name) and n.targets[0].id == name:
-            return _all_inputs_expr(n.value)
-    return False
-
 
 def _all_inputs_expr(e):
     return (isinstance(e, ast.Call) and isinstance(e.func, ast.Name) and e.func.id == "all" and e.args
@@ -417,20 +388,3 @@ def _all_inputs_expr(e):
             and ".inputs" in src(e.args[0].generators[0].iter))
 
 
-def _preflight_kinds(exe, cfg, raises):
-    """classify pre-flight raise sites by the guard that leads to them"""
-    kinds = set()
-    for n in raises:
-        facts = guard_facts(cfg, n)
-        txt = " ; ".join(f"{src(a)}={pol}" for a, pol, _ in facts)
-        if "len(wires) > 1=True" in txt or ("len(" in txt and "> 1=True" in txt):
-            kinds.add("duplicate sources")
-        if "_handlers=True" in txt and "not in" in txt:
-            kinds.add("missing handler")
-        if "incoming_by_port=True" in txt and "not in" in txt:
-            kinds.add("missing source")
-        if "not in self.diagram.modules=True" in txt:
-            kinds.add("unknown module")
-        if "not in spec.inputs=True" in txt:
-            kinds.add("unknown port")
-    return kinds
